@@ -23,7 +23,7 @@ KNOWN = set(H.P('known', ()))
 FUNCTIONS_ENCODED = ['yaql.language.factory.YaqlEngine.__call__', 'ply.lex.Lexer.token/input/clone',
                      'ply.yacc.LRParser.parse (parseopt_notrack)', 'yaql.language.lexer.Lexer token actions',
                      'yaql.language.parser.Parser rule actions and p_error', 'yaql.eval (module-level caches)']
-BOUNDS = {'quick': 'pool of 14 texts (every token kind, every grammar rule family, lexical and grammar errors, empty text); '
+BOUNDS = {'quick': 'pool of 17 texts (every token kind, every grammar rule family, lexical and grammar errors, empty text); '
                    'one interference point k in [0,8]; interfering lexer state: lexdata symbolic str len<=3, lexpos in '
                    '[0,len+1], lineno arbitrary; parser stacks replaced; default engine',
           'thorough': 'pool of 22 texts; default, legacy and customised-operator engines; two interference points'}
@@ -39,7 +39,7 @@ EXPLANATION = ('Rely/guarantee by havoc: the engine-wide lexer and parser object
 TECHNIQUE = 'bounded symbolic execution (CrossHair+z3) with symbolic interference (havoc) at token-fetch points; replay with real threads under a hand-off scheduler'
 
 POOL_Q = ['1 + 2 * 3', '$.a.b(1, x => 2)', '[1, 2][0]', '{a => b}', 'not true and $x', "'a\\n' + \"b\"", '`v` in $',
-          'f(, 1)', '$x?.y -> 1.5 mod -2', 'a +', "'x' )", '', 'a # b', '[1,']
+          'f(, 1)', '$x?.y -> 1.5 mod -2', 'a +', "'x' )", '', 'a # b', '[1,', "'a b'", "'a  b'", '`a\tb` + `a b`']
 POOL_T = POOL_Q + ['$a >= +3 or null', 'a.b.c', 'f(x => 1)(2)', '1 ~ 2', '(1', '$ =~ x !~ y', '{a => 1, b => [2]}.a', 'x[1][2]{3}']
 ENGINE_KIND = H.P('engine', 'default')
 
@@ -79,13 +79,33 @@ def outcome(engine, text):
 
 POOL = POOL_T if H.P('pool') == 't' else POOL_Q
 if not H.P('driver'):
-    _fresh_engine = make_engine(ENGINE_KIND)
-    FRESH = [outcome(make_engine(ENGINE_KIND), t) for t in POOL[:3]] + [outcome(_fresh_engine, t) for t in POOL[3:]]
+    FRESH = [outcome(make_engine(ENGINE_KIND), t) for t in POOL]      # one brand-new engine per text
     FRESH_BY_TEXT = dict(zip(POOL, FRESH))
     ENG = make_engine(ENGINE_KIND)
 _orig_token = lex.Lexer.token
 POSBOX = [(p,) for p in range(6)]
 D1 = H.P('domain', 'D2') == 'D1'
+
+
+def engine_lexer_ids(engine):
+    """ids of every ply Lexer reachable from the engine object through its attributes (two container levels)"""
+    out = set()
+
+    def visit(v, depth):
+        if isinstance(v, lex.Lexer):
+            out.add(id(v))
+        elif depth > 0 and isinstance(v, (list, tuple, set, frozenset)):
+            for x in v:
+                visit(x, depth - 1)
+        elif depth > 0 and isinstance(v, dict):
+            for x in list(v.values()) + list(v.keys()):
+                visit(x, depth - 1)
+        elif depth > 0 and hasattr(v, '__dict__') and type(v).__module__.split('.')[0] in ('yaql', 'collections', 'queue'):
+            for x in vars(v).values():
+                visit(x, depth - 1)
+    for v in vars(engine).values():
+        visit(v, 3)
+    return out
 
 
 def isolated(i: int, k: int, lexdata: str, lexpos: int, lineno: int, k2: int, stacks: bool) -> bool:
@@ -101,11 +121,18 @@ def isolated(i: int, k: int, lexdata: str, lexpos: int, lineno: int, k2: int, st
     text = POOL[i]
     lexpos = POSBOX[lexpos][0]      # realised (CrossHair's regex model cannot start a match at a symbolic offset)
 
-    def havoc():
-        shared_lexer.lexdata = lexdata
-        shared_lexer.lexpos = lexpos
-        shared_lexer.lexlen = len(lexdata)
-        shared_lexer.lineno = lineno
+    def havoc(in_use=None):
+        targets = [shared_lexer]
+        with H.NoTracing():
+            # the lexer this parse is using is interfered with as well whenever another parse could obtain the same
+            # object, i.e. whenever it is reachable from the engine's own state (master lexer, pools, caches ...)
+            if in_use is not None and in_use is not shared_lexer and id(in_use) in engine_lexer_ids(ENG):
+                targets.append(in_use)
+        for lx in targets:
+            lx.lexdata = lexdata
+            lx.lexpos = lexpos
+            lx.lexlen = len(lexdata)
+            lx.lineno = lineno
         if stacks:
             shared_parser.statestack = [0, 7]
             shared_parser.symstack = ['$end', 'x']
@@ -113,7 +140,7 @@ def isolated(i: int, k: int, lexdata: str, lexpos: int, lineno: int, k2: int, st
 
     def token(self):
         if count[0] == k or count[0] == k2:
-            havoc()
+            havoc(self)
         count[0] += 1
         return _orig_token(self)
 
@@ -346,16 +373,20 @@ class Sched:
         return res
 
 
-def threaded(engine, text_a, text_b, k, j):
-    """A starts and passes k token fetches, B runs j scheduling points (its start + fetches), A finishes, B finishes"""
-    sched = Sched(['A'] * (k + 1) + ['B'] * j + ['A'] * 40 + ['B'] * 40)
+def threaded(engine, text_a, text_b, k, j, text_c=None, jc=0):
+    """A starts and passes k token fetches, B runs j scheduling points (its start + fetches; j >= 40: to completion),
+    then optionally a third parse C runs jc points, A finishes, the others finish"""
+    sched = Sched(['A'] * (k + 1) + ['B'] * j + ['C'] * jc + ['A'] * 40 + ['B'] * 40 + ['C'] * 40)
 
     def token(self):
         sched.point()
         return _orig_token(self)
     lex.Lexer.token = token
+    jobs = {'A': lambda: outcome(engine, text_a), 'B': lambda: outcome(engine, text_b)}
+    if text_c is not None:
+        jobs['C'] = lambda: outcome(engine, text_c)
     try:
-        return sched.run({'A': lambda: outcome(engine, text_a), 'B': lambda: outcome(engine, text_b)})
+        return sched.run(jobs)
     finally:
         lex.Lexer.token = _orig_token
 
@@ -372,8 +403,17 @@ def replay(cond, args):
         tj, ti = pool[args['j']], pool[args['i']]
         outcome(eng, tj)
         got, fresh = outcome(eng, ti), outcome(make_engine(kind), ti)
+        if got != fresh:
+            return {'reproduced': True, 'key': 'C01/history-dependent-parse',
+                    'what': 'after parsing %r, engine(%r) gives %r, a fresh engine gives %r' % (tj, ti, got, fresh)}
+        # the harness engine is long-lived: its history is every pool text explored on earlier paths
+        eng = make_engine(kind)
+        for t in pool:
+            outcome(eng, t)
+        outcome(eng, tj)
+        got = outcome(eng, ti)
         return {'reproduced': got != fresh, 'key': 'C01/history-dependent-parse',
-                'what': 'after parsing %r, engine(%r) gives %r, a fresh engine gives %r' % (tj, ti, got, fresh)}
+                'what': 'after parsing the pool %r and then %r, engine(%r) gives %r, a fresh engine gives %r' % (pool, tj, ti, got, fresh)}
     if cond['func'] == 'isolated_g':
         args = dict(args, lexdata=pool[args['h']])
     text = pool[args['i']]
@@ -386,17 +426,26 @@ def replay(cond, args):
         if got != fresh:
             return {'reproduced': True, 'key': 'C01/history-dependent-parse',
                     'what': 'after parsing %r, engine(%r) gives %r, a fresh engine gives %r' % (prior, text, got, fresh)}
-    # 2. two real threads, hand-off at Lexer.token entry: B = another parse whose Lexer.input happens between two fetches of A
+    # 2. real threads, hand-off at Lexer.token entry: B = another parse whose Lexer.input happens between two fetches of
+    #    A; engines with and without a failed parse in their history; optionally a third parse C after B completed
     texts_b = [args['lexdata'], '', '1', '$x + 1', "'abc'", ')']
-    for tb in texts_b:
-        fresh_b = outcome(make_engine(kind), tb)
-        for k in sorted({args['k'], max(args['k'] - 1, 0), args['k'] + 1, 1, 2, 3}):
-            for j in (1, 2, 3):
-                eng = make_engine(kind)
-                res = threaded(eng, text, tb, k, j)
-                if res.get('A') != fresh or res.get('B') != fresh_b:
-                    return {'reproduced': True, 'key': 'C01/shared-lexer-interleaving',
-                            'what': 'thread A parses %r, thread B parses %r on the same engine; schedule: A passes %d token '
-                                    'fetches, B runs %d steps, A continues: A gets %r (alone: %r), B gets %r (alone: %r)' % (
-                                        text, tb, k, j, res.get('A'), fresh, res.get('B'), fresh_b)}
+    ks = sorted({args['k'], max(args['k'] - 1, 0), args['k'] + 1, 1, 2, 3})
+    for prior in ([], ['a +', 'a # b']):
+        for tb in texts_b:
+            fresh_b = outcome(make_engine(kind), tb)
+            for k in ks:
+                for j, tc, jc in [(1, None, 0), (2, None, 0), (3, None, 0), (40, '$y', 1), (40, '$y', 2), (40, ')', 1)]:
+                    eng = make_engine(kind)
+                    for t in prior:
+                        outcome(eng, t)
+                    res = threaded(eng, text, tb, k, j, tc, jc)
+                    fresh_c = outcome(make_engine(kind), tc) if tc is not None else None
+                    if res.get('A') != fresh or res.get('B') != fresh_b or (tc is not None and res.get('C') != fresh_c):
+                        return {'reproduced': True, 'key': 'C01/shared-lexer-interleaving',
+                                'what': 'engine history %r; thread A parses %r, B parses %r%s on the same engine; schedule: A '
+                                        'passes %d token fetches, B runs %s, %sA continues: A gets %r (alone: %r), B gets %r '
+                                        '(alone: %r)' % (prior, text, tb, '' if tc is None else ', C parses %r' % tc, k,
+                                                         'to completion' if j >= 40 else '%d steps' % j,
+                                                         '' if tc is None else 'C runs %d steps, ' % jc,
+                                                         res.get('A'), fresh, res.get('B'), fresh_b)}
     return {'reproduced': False, 'note': 'no sequential history or two-thread schedule reproduces the havoc counterexample'}
